@@ -34,7 +34,7 @@ CHECKS = {
     "C05": dict(engine=TV, cat="translation_validation",
                 technique="SMT self-composition (z3): per-event code run twice on one symbolic event from two arbitrary pre-states; inductive invariant 'vector columns empty'",
                 text="one inductive step: rows and faults are independent of every scalar member / uninitialised local pre-state and the invariant is restored, for all events within the bound - hence for event sequences of any length and order",
-                note="reference-free; user C++ assumed pure; counterexamples replayed on concrete histories of E, the empty event E0 and a full event E1; the script-level "split across jobs" clause is taken from the C16 shell model; front-end fact: the job configuration does not bound the number of events",
+                note="reference-free; user C++ assumed pure; counterexamples replayed on concrete histories of E, the empty event E0 and a full event E1; the script-level 'split across jobs' clause is taken from the C16 shell model; front-end fact: the job configuration does not bound the number of events",
                 ref="DESIGN.md 3/C05"),
     "C06": dict(engine=TV, cat="other", also=(CH,),
                 technique="SMT translation validation with a symbolic event store (z3) + CrossHair on process_metadata / the whole pipeline with a symbolic bank string",
